@@ -42,6 +42,9 @@ type Txn struct {
 	Commit     bool    `json:"commit"`     // what the application asks for
 	Faults     []Fault `json:"faults"`     // armed right before End (EndTxn faults) or before producing (others)
 	ProduceGap bool    `json:"produceGap"` // produce one more record between a failed End and the abort retry
+	// Kinds, if given, says record by record how the produce goes: "ok", or "ghost" (the broker appends the batch, the answer is
+	// lost, and the client's retry is answered with a fatal code: the record is in the log but reported as failed)
+	Kinds []string `json:"kinds,omitempty"`
 	// AsyncAbortMs > 0: the records are produced without waiting for them and, this many (virtual) ms later, the application
 	// aborts: AbortBufferedRecords + End(TryAbort) while batches may be in flight or being retried
 	AsyncAbortMs int `json:"asyncAbortMs,omitempty"`
@@ -59,7 +62,9 @@ type Scenario struct {
 	Txns  []Txn  `json:"txns,omitempty"`
 	Steps []Step `json:"steps,omitempty"`
 	Proto string `json:"proto,omitempty"`
-	Old   bool   `json:"old,omitempty"` // brokers before KIP-890 part 2 (no epoch bump per transaction): kfake capped at 3.7
+	// GapMs (eos): how long a member takes between a poll that returned records and Begin (a rebalance can land in between)
+	GapMs int  `json:"gapMs,omitempty"`
+	Old   bool `json:"old,omitempty"` // brokers before KIP-890 part 2 (no epoch bump per transaction): kfake capped at 3.7
 	// Expect is carried through untouched: what spec/Txn.tla says EndTransaction reports and which records end up visible
 	// (scenarios exported from the specification; compared by the check, not by the driver)
 	Expect json.RawMessage `json:"expect,omitempty"`
@@ -117,6 +122,7 @@ func gen(seed int64, tier, mode string) Scenario {
 		return sc
 	}
 	sc.Proto = []string{"coop", "coop", "range", "848"}[r.Intn(4)]
+	sc.GapMs = []int{0, 0, 150, 600, 1500}[r.Intn(5)]
 	sc.Steps = append(sc.Steps, Step{Op: "produce_in", N: 6 + r.Intn(8)}, Step{Op: "join", M: 1})
 	live := map[int]bool{1: true}
 	droppedEOS := map[string]bool{}
@@ -174,6 +180,31 @@ func arm(c *kfake.Cluster, chaos *sim.Chaos, rec *sim.Recorder, f Fault) {
 				rec.Ev("dbg_kill", "key", f.Key, "left", n)
 			}
 			return nil, errors.New("injected connection kill"), true
+		})
+	case "dropthenfatal":
+		// produce: the request is handled and its acknowledgement lost; the retry is answered TRANSACTION_ABORTABLE
+		chaos.DropNext(key, 1)
+		first := true
+		c.ControlKey(key, func(kreq kmsg.Request) (kmsg.Response, error, bool) {
+			if first {
+				first = false
+				c.KeepControl()
+				return nil, nil, false
+			}
+			c.DropControl()
+			req := kreq.(*kmsg.ProduceRequest)
+			resp := req.ResponseKind().(*kmsg.ProduceResponse)
+			for _, rt := range req.Topics {
+				st := kmsg.NewProduceResponseTopic()
+				st.Topic, st.TopicID = rt.Topic, rt.TopicID
+				for _, rp := range rt.Partitions {
+					sp := kmsg.NewProduceResponseTopicPartition()
+					sp.Partition, sp.ErrorCode, sp.BaseOffset = rp.Partition, kerr.TransactionAbortable.Code, -1
+					st.Partitions = append(st.Partitions, sp)
+				}
+				resp.Topics = append(resp.Topics, st)
+			}
+			return resp, nil, true
 		})
 	case "dropthenretriable":
 		// produce: the first request is handled and its acknowledgement lost; the next n are answered NOT_LEADER_FOR_PARTITION
@@ -333,7 +364,16 @@ func runTxn(t *testing.T, rec *sim.Recorder, sc Scenario) {
 				rec.Ev("abort_buffered", "txn", k, "err", fmt.Sprint(ferr))
 				ferr = errors.New("application aborts")
 			} else {
-				produce(k, tx.N)
+				if len(tx.Kinds) > 0 {
+					for _, kind := range tx.Kinds {
+						if kind == "ghost" {
+							arm(c, chaos, rec, Fault{Key: "produce", Kind: "dropthenfatal", N: 1})
+						}
+						produce(k, 1)
+					}
+				} else {
+					produce(k, tx.N)
+				}
 				ctx, cancel = ctxT()
 				ferr = cl.Flush(ctx)
 				cancel()
@@ -445,6 +485,9 @@ func runEOS(t *testing.T, rec *sim.Recorder, sc Scenario) {
 					}
 					if fs.NumRecords() == 0 {
 						continue
+					}
+					if sc.GapMs > 0 {
+						time.Sleep(time.Duration(sc.GapMs) * time.Millisecond)
 					}
 					if err := sess.Begin(); err != nil {
 						rec.Ev("note", "what", "begin: "+err.Error())
